@@ -18,6 +18,7 @@ import struct
 from .. import kafka_schema as KS
 from .. import wireshape as W
 from ..model import self_attr, unparse, walk_body_shallow
+from .util import *  # noqa: F401,F403
 from .util import concrete_values, expand, holds_mod, const_value, call_name, call_recv, calls_in, kwarg, need, norm, where
 
 TECHNIQUE = "wire-grammar extraction by symbolic evaluation of encoders, compared with a hand-transcribed Kafka schema; " \
@@ -407,12 +408,20 @@ def run(ctx):
                 "header version for negotiated {0,2,3,9} is %s; must be 0 for 0 and 2 for >= 2" % vals, where(f, f.node),
                 "broker advertising max version 9: request carries version 9 with a version-2 body", facts=["%s" % vals])
     dp = ctx.func(KCQ + ".decode_produce_response")
-    arms, res = eval_version_arms(dp, "api_version", samples)
+    # the layout a reply of negotiated version s is parsed with: the nested decoder (and the constants) the dispatch on
+    # the version selects for s, compared with the schema of version 0 / version 2
+    from .c05 import resolve_decoder
+    from ..model import ShapeError as _SE
     layout = {}
     for s in samples:
-        b = arms[res[s]][1] if arms and res[s] is not None else []
-        rets = [st for st in b if isinstance(st, ast.Return) and isinstance(st.value, ast.Call)]
-        layout[s] = norm(rets[0].value.func) if rets else None
+        try:
+            g_, consts_ = resolve_decoder(ctx, "decode_produce_response.v%d" % s)
+            terms_, _e = W.decoder_terms(prog, g_, consts_)
+            terms_ = [t for t in terms_ if not (t[0] == "ALT" and not any(b for c, b in t[1]))]
+            layout[s] = [v for v in ("v0", "v2") if not diff_terms(terms_, KS.RESPONSES["decode_produce_response." + v], check_bind=False)]
+            layout[s] = layout[s][0] if layout[s] else None
+        except _SE:
+            layout[s] = None
     r.check(layout == {0: "v0", 2: "v2", 3: "v2", 9: "v2"}, "%s#reply-layout" % dp.qname, "produce reply layout chosen: %s" % layout, where(dp, dp.node),
             "v2 reply parsed with the v0 layout: offsets and error codes shifted")
     r.info("produce decoder uses the v2 layout for negotiated version 1 (unreachable: minimum 0, maximum >= 2)")
